@@ -54,6 +54,12 @@ def run_harness(exe, args, out):
         r = subprocess.run([exe] + args + ["--out", out], capture_output=True, text=True, timeout=900)
     except subprocess.TimeoutExpired:
         raise V.ToolFailure(f"harness {' '.join(args)} timed out (a search that does not terminate shows up here)")
+    if r.returncode == 3 and os.path.exists(out):
+        # the harness recorded the library call that crashed / did not return as the last event: a verdict, not a tool failure
+        with open(out, "rb") as fh:
+            last = fh.read().splitlines()[-1:]
+        if last and b'"crash":' in last[0]:
+            return
     if r.returncode != 0:
         raise V.ToolFailure(f"harness {exe} {' '.join(args)} failed rc={r.returncode}: {r.stderr[-1000:]}")
 
@@ -228,10 +234,11 @@ def check(prop, tier, seed, replay=None):
             sample_events(oc, traces)
         # the exhaustive part: every enumeration complete, as certified by the trace spec
         incomplete = [k for k in expected_exh if not (exh.get(k) or {}).get("complete")]
-        if incomplete:
+        noreturn = any(b.get("clause") == "C20.search.noreturn" for b, _ in oc.violations)
+        if incomplete and not noreturn:        # (an enumeration cut short by a crashing library call is reported as the violation)
             raise V.ToolFailure(f"exhaustive search enumeration incomplete for {incomplete}: {exh}")
         searches = sum(v for k, v in oc.cov.items() if k.startswith("search.case"))
-        oc.extra["exhaustive"] = bool(expected_exh)
+        oc.extra["exhaustive"] = bool(expected_exh) and not incomplete
         oc.extra["exhaustive_part"] = {
             "what": "C20.search: every sorted range of length <= 8 over a six-letter alphabet (3003, with repeats, incl. empty) x 13 queries "
                     "(below / on / between / above the letters), per (key type, alphabet); completeness certified by TracePoly (strictly "
